@@ -21,7 +21,13 @@ import (
 	"time"
 )
 
-const VerifDir = "/verif"
+// VerifDir is where evidence, replays and known_findings.jsonl live (VERIF_DIR overrides it for scratch copies of the harness).
+var VerifDir = func() string {
+	if d := os.Getenv("VERIF_DIR"); d != "" {
+		return d
+	}
+	return "/verif"
+}()
 
 // Env is what a case sees.
 type Env struct {
@@ -61,6 +67,8 @@ type CaseResult struct {
 	Sets         map[string][]string `json:"sets,omitempty"` // distinct things seen (plan shapes ...), unioned
 	Sample       any              `json:"sample,omitempty"`
 	Violations   []Violation      `json:"violations,omitempty"`
+	// RestartChild asks the worker to exit after journalling this case (e.g. it had to abandon a hung engine goroutine).
+	RestartChild bool `json:"restart_child,omitempty"`
 }
 
 func NewResult() *CaseResult {
@@ -268,6 +276,10 @@ func WorkerMain(c *Check, env *Env, shard, of, from int, journal string, only bo
 		fmt.Fprintf(jf, "E %s\n", b)
 		if only {
 			break
+		}
+		if res != nil && res.RestartChild {
+			jf.Close()
+			os.Exit(75)
 		}
 	}
 	jf.Close()
@@ -597,6 +609,19 @@ func runShard(c *Check, env *Env, opts RunOpts, base string, shard, of, n int, a
 		}
 		if werr == nil && openIdx < 0 {
 			return
+		}
+		if ee, ok := werr.(*exec.ExitError); ok && ee.ExitCode() == 75 && openIdx < 0 {
+			last := -1
+			for i := range done {
+				if i > last {
+					last = i
+				}
+			}
+			from = last + 1
+			if from >= n {
+				return
+			}
+			continue
 		}
 		if openIdx < 0 {
 			// died outside a case (start-up failure): report once and stop this shard
